@@ -133,10 +133,30 @@ def r10_4(ctx):
     back = f.back_edges()
     regs = {v: set(explore(f, tg, {pk: v}, removed_edges=back).keys()) for v, tg in ve.items()}
     from .c14 import _counter_incs
-    incs = [(bb, nm) for bb, si, nm in _counter_incs(f) if nm == "testcase_index"]
+    # the outcome index is bound by role: the local that indexes the outcomes argument (outcomes[n])
+    idx_names = set()
+    for bi, blk in enumerate(f.blocks):
+        if blk["cleanup"]:
+            continue
+        for st in blk["stmts"]:
+            if st["k"] == "assign":
+                for pl in c06._places_of(st):
+                    c = f.canon_place(pl)
+                    for p_ in c["p"]:
+                        if isinstance(p_, dict) and "idx" in p_ and c["l"] == 3:
+                            idx_names.add(f.place_name({"l": p_["idx"], "p": []}))
+        t_ = blk["term"]
+        if t_["k"] == "call" and mname(t_) in ("slice::get", "Index::index") and any(n.kind == "arg" and n.a == 3 for n in o.operand(t_["args"][0]).walk()) and len(t_["args"]) > 1:
+            pl_ = t_["args"][1].get("copy") or t_["args"][1].get("move")
+            if pl_ is not None:
+                idx_names.add(f.place_name(f.canon_place(pl_)))
+    if len(idx_names) != 1:
+        raise AnchorError("generate_update: the local indexing `outcomes` is not unique: %s" % sorted(idx_names))
+    INDEX = idx_names.pop()
+    incs = [(bb, nm) for bb, si, nm in _counter_incs(f) if nm == INDEX]
     in_test = [bb for bb, nm in incs if bb in regs["TestCodeBlock"] and not any(bb in regs[v] for v in regs if v != "TestCodeBlock")]
-    ctx.check(len(incs) == 1 and len(in_test) == 1, "index-once-per-test-block", f.where(), "testcase_index is incremented exactly once, in the TestCodeBlock arm",
-              "testcase_index increments: %d total, %d exclusive to the TestCodeBlock arm" % (len(incs), len(in_test)))
+    ctx.check(len(incs) == 1 and len(in_test) == 1, "index-once-per-test-block", f.where(), "the outcome index (%s) is incremented exactly once, in the TestCodeBlock arm" % INDEX,
+              "outcome index increments: %d total, %d exclusive to the TestCodeBlock arm" % (len(incs), len(in_test)))
     # every path through the TestCodeBlock arm that reads outcomes[..] passes the increment exactly once, the others never
     from .c20 import _segment_events
     reads = set()
@@ -177,7 +197,7 @@ def r10_4(ctx):
                     if isinstance(p, dict) and "idx" in p and c["l"] == 3:
                         idx.add((bi, f.place_name({"l": p["idx"], "p": []})))
     names = sorted({n for _, n in idx})
-    ctx.check(names == ["testcase_index"] and len({b for b, _ in idx}) == 1, "outcome-by-index", f.where(), "the n-th test block is rewritten from outcomes[n] (single reader)",
+    ctx.check(names == [INDEX] and len({b for b, _ in idx}) == 1, "outcome-by-index", f.where(), "the n-th test block is rewritten from outcomes[n] (single reader)",
               "outcomes is indexed by %s at %d sites" % (names, len(idx)))
 
 
